@@ -155,3 +155,26 @@ m('roperation_swapped', ['C20'], 'landscapes.py', 'result = jax.tree.map(partial
 m('rsub_container', ['C20'], 'landscapes.py', '            result = jax.tree.map(operation, left, self)', '            result = jax.tree.map(operation, self, left)', note='unreachable: for two containers of the same type Python never calls the reflected method; semantics preserving')
 m('dot_conj_second', ['C20'], 'tree.py', 'xy = jax.tree.map(jnp.vdot, x, y)', 'xy = jax.tree.map(lambda a, b: jnp.vdot(b, a), x, y)')
 m('neg_maps_abs', ['C20'], 'landscapes.py', 'result: Self = jax.tree.map(operator.neg, self)', 'result: Self = jax.tree.map(lambda l: -jnp.abs(l) if l.ndim > 2 else -l, self)', note='needs rank-3 components: outside the bounds of the quick tier (documents a miss)')
+
+# ---- semantics-preserving refactors: every listed check must exit 0 -----------------------------------------------------------
+B = 'semantics preserving refactor: must NOT be flagged'
+m('benign_sum_reverse_order', ['C01', 'C02', 'C03', 'C04'], '_base/core.py',
+  '        y = operands[0](x)\n\n        for operand in operands[1:]:\n            y = jax.tree.map(jnp.add, y, operand(x))\n',
+  '        y = operands[-1](x)\n\n        for operand in reversed(operands[:-1]):\n            y = jax.tree.map(jnp.add, operand(x), y)\n', note=B)
+m('benign_moveaxis_via_transpose', ['C13', 'C03', 'C01'], '_base/axes.py',
+  '        return jax.tree.map(lambda leaf: jnp.moveaxis(leaf, self.source, self.destination), x)',
+  '        def func(leaf):\n            src = [s % leaf.ndim for s in self.source]\n            dst = [d % leaf.ndim for d in self.destination]\n            perm = [a for a in range(leaf.ndim) if a not in src]\n            for d, s_ in sorted(zip(dst, src)):\n                perm.insert(d, s_)\n            return jnp.transpose(leaf, perm)\n\n        return jax.tree.map(func, x)', note=B)
+m('benign_rotation_half_angle_formulas', ['C15', 'C16', 'C01'], 'operators/qu_rotations.py',
+  '        cos_2angles = jnp.cos(2 * self.angles)\n        sin_2angles = jnp.sin(2 * self.angles)\n        q = x.q * cos_2angles - x.u * sin_2angles',
+  '        cos_2angles = 1 - 2 * jnp.sin(self.angles) ** 2\n        sin_2angles = 2 * jnp.sin(self.angles) * jnp.cos(self.angles)\n        q = x.q * cos_2angles - x.u * sin_2angles', note=B)
+m('benign_larger_default_fft', ['C09', 'C04', 'C18'], 'operators/toeplitz.py', '        additional_power = 1\n', '        additional_power = 2\n', note=B)
+m('benign_rules_reverse_order', ['C01', 'C07', 'C15', 'C12', 'C13', 'C10'], '_base/rules.py', '        return iter(self._registry)', '        return iter(reversed(self._registry))', note=B)
+m('benign_homothety_commuted', ['C01', 'C02', 'C06', 'C08'], '_base/core.py', 'return jax.tree.map(lambda leaf: self.value * leaf, x)', 'return jax.tree.map(lambda leaf: leaf * self.value, x)', note=B)
+m('benign_pinv_where_flipped', ['C06', 'C01', 'C10'], '_base/diagonal.py', 'return jnp.where(self._diagonal != 0, 1 / self._diagonal, 0)', 'return jnp.where(self._diagonal == 0, 0, 1 / self._diagonal)', note=B)
+m('benign_blockdiag_mv_loop', ['C10', 'C01', 'C03'], '_base/blocks.py', '        return self._tree_map(lambda op, vect: op.mv(vect), vector)',
+  '        ops, treedef = jax.tree.flatten(self.blocks, is_leaf=lambda x: isinstance(x, AbstractLinearOperator))\n        vects = treedef.flatten_up_to(vector)\n        return jax.tree.unflatten(treedef, [op.mv(v) for op, v in zip(ops, vects)])', note=B)
+m('benign_pixel2index_rint', ['C17'], 'landscapes.py', '            indices_axis = jnp.round(coord).astype(dtype)\n            valid &= (0 <= indices_axis) & (indices_axis < dim)',
+  '            indices_axis = jnp.rint(coord).astype(dtype)\n            valid = jnp.logical_and(valid, jnp.logical_and(indices_axis >= 0, indices_axis <= dim - 1))', note=B)
+m('benign_pack_via_where', ['C12', 'C01'], '_base/linear.py', '        return x[self.mask]', '        idx = jnp.nonzero(self.mask)\n        return x[idx] if not isinstance(x, jax.Array) else x[idx]', note=B)
+m('benign_composition_mv_loop', ['C01', 'C02', 'C03'], '_base/core.py', '        for operand in reversed(self.operands):\n            x = operand.mv(x)\n        return x',
+  '        y = x\n        for i in range(len(self.operands) - 1, -1, -1):\n            y = self.operands[i].mv(y)\n        return y', note=B)
